@@ -15,6 +15,7 @@ var decMu sync.RWMutex
 func CompileToGetDecoder(typ *runtime.Type) (Decoder, error) {
 	initDecoder()
 	typeptr := uintptr(unsafe.Pointer(typ))
+	verifCacheGate("lookup", typeptr)
 	if typeptr > typeAddr.MaxTypeAddr {
 		return compileToGetDecoderSlowPath(typeptr, typ)
 	}
@@ -23,16 +24,20 @@ func CompileToGetDecoder(typ *runtime.Type) (Decoder, error) {
 	decMu.RLock()
 	if dec := cachedDecoder[index]; dec != nil {
 		decMu.RUnlock()
+		verifCacheReturn("fast-hit", typeptr, index, dec)
 		return dec, nil
 	}
 	decMu.RUnlock()
 
+	verifCacheGate("miss", typeptr)
 	dec, err := compileHead(typ, map[uintptr]Decoder{})
 	if err != nil {
 		return nil, err
 	}
+	verifCacheGate("publish", typeptr)
 	decMu.Lock()
 	cachedDecoder[index] = dec
 	decMu.Unlock()
+	verifCacheReturn("fast-compiled", typeptr, index, dec)
 	return dec, nil
 }
